@@ -27,7 +27,7 @@ var c09Carriers = []string{"bytes", "arena", "bb", "buffer", "breader", "wtN", "
 // one low-level write (the two classes of the recorded findings).
 func c09MultiWrite(pipe, carrier string, size int) string {
 	switch pipe {
-	case "lf", "varint":
+	case "lf", "lf4", "varint":
 		return "" // these encoders collect the body and emit one [][]byte
 	case "delim", "delim+text":
 		if carrier == "bytes" || carrier == "arena" {
@@ -58,8 +58,26 @@ func genC09(t *rapid.T) E1Case {
 	if c.Kind == "qnonblock" {
 		c.Queue = 8 // a rejected chunk in the middle of a streamed message is not this property's subject
 	}
-	c.Pipe = rapid.SampledFrom([]string{"", "", "delim", "delim+text", "lf", "varint"}).Draw(t, "pipe")
+	c.Pipe = rapid.SampledFrom([]string{"", "", "delim", "delim+text", "lf", "lf4", "varint"}).Draw(t, "pipe")
 	known := core.KnownSigs("C09")
+	if rapid.IntRange(0, 149).Draw(t, "hugeframe") == 71 {
+		// one framed message of more than a megabyte among small ones from another writer
+		c.Pipe = "lf4"
+		if c.Kind != "sync" {
+			c.Kind, c.Queue = "qblock", 4
+		}
+		c.Tasks = []E1Task{
+			{Role: "writer", Ops: []E1Op{{Op: "write", Carrier: "bytes", Sizes: []int{rapid.SampledFrom([]int{1048577, 1200000}).Draw(t, "hugesize")}}}},
+			{Role: "writer", Ops: []E1Op{{Op: "write", Carrier: "bytes", Sizes: []int{3}}, {Op: "write", Carrier: "bytes", Sizes: []int{100}}}},
+		}
+		c.Schedule = genSchedule(t, 60)
+		for i := range c.Schedule {
+			if i%2 == 0 {
+				c.Schedule[i] = 1
+			}
+		}
+		return c
+	}
 	nw := rapid.IntRange(2, 4).Draw(t, "writers")
 	for w := 0; w < nw; w++ {
 		task := E1Task{Role: "writer"}
@@ -100,6 +118,8 @@ func c09Handlers(pipe string) []netty.Handler {
 		return []netty.Handler{frame.DelimiterCodec(1<<20, "\r\n", true), format.TextCodec()}
 	case "lf":
 		return []netty.Handler{frame.LengthFieldCodec(binary.BigEndian, 1<<20, 0, 2, 0, 2)}
+	case "lf4":
+		return []netty.Handler{frame.LengthFieldCodec(binary.BigEndian, 4<<20, 0, 4, 0, 4)}
 	case "varint":
 		return []netty.Handler{frame.VarintLengthFieldCodec(1 << 20)}
 	}
@@ -112,6 +132,8 @@ func c09Ref(pipe string) *wire.Codec {
 		return &wire.Codec{Kind: "delim", Delim: []byte("\r\n"), StripD: true, Max: 1 << 20}
 	case "lf":
 		return &wire.Codec{Kind: "lf", Width: 2, Strip: 2, Max: 1 << 20}
+	case "lf4":
+		return &wire.Codec{Kind: "lf", Width: 4, Strip: 4, Max: 4 << 20}
 	case "varint":
 		return &wire.Codec{Kind: "varint", Max: 1 << 20}
 	}
